@@ -29,6 +29,15 @@ CHECKS = {
  "C16": ("fault_enumeration", "runtime fault enumeration: every strict prefix of each generated stream (all offsets up to 8 KiB, field boundaries +-1 and a sample beyond) read into a fresh receiver under recover + watchdog; full kind x kind and one-parameter-off mismatch matrix; version patch; every prefix of every component file of a damaged segment opened through the store",
          "Enumerated ~190k prefixes over 96 streams (quick) of all 8 kinds, 672 cross-kind pairings, every one-parameter receiver variant, and the segment clause over every byte prefix of the 4 gzip files of a damaged segment next to an intact one.",
          "Prefixes are cut from streams the implementation itself produced; exhaustive=true only when every offset of every stream of the run was tried.", "DESIGN.md §4 C16"),
+ "C08": ("exploration", "runtime monitor: acknowledged-write visibility model over generated sequential store histories (every search twice and again after the next op), differential vector-only id sets vs an in-memory index, hook-driven targeted schedules (action run beside a goroutine paused at each hook point), structural instance-ownership monitor",
+         "Held (apart from the listed compaction finding) on 120/2500 histories over memtable limits from one document up, synchronous and background flushes, forced rotations, compactions, cache evictions, plus 132/792 targeted schedules over 22 hook points x 6 actions; ~14k index instances tracked for sharing.",
+         "Background-flush interleavings are whatever the scheduler produces (the oracle does not depend on them); compaction losses are matched per document against the doc->segment map read back from disk.", "DESIGN.md §4 C08"),
+ "C09": ("exploration", "runtime monitor: durable-set model over multi-session open/add/flush/close histories, every open with freshly constructed templates, one all-matching query per modality after every reopen (twice), sha256 of earlier segment files and id monotonicity checked after every acknowledged flush",
+         "Held on 60/1500 multi-session cases over flat / HNSW / trained IVF / no vector template, with and without text and metadata, memtable limits from one document up.",
+         "Reopen in the same process with fresh template objects (new process in the thorough tier); HNSW kept exact per segment, IVF searched at full probe.", "DESIGN.md §4 C09"),
+ "C10": ("fault_enumeration", "runtime fault enumeration: directory snapshot at every crash:* hook point of flush / compaction / deletion plus every byte prefix of every in-flight file, each distinct image reopened with fresh templates and checked against the durable-set model, per-segment all-or-nothing and id-reuse checks",
+         "Enumerated ~110 boundaries and ~9000 distinct crash images per quick run (8 histories with 0-3 completed flushes, interrupted flush or compaction); byte prefixes exhaustive (all files < 4 KiB).",
+         "Process-death semantics (page cache survives); files are written sequentially so intermediate states are prefixes; power loss / fsync is outside the property.", "DESIGN.md §4 C10"),
  "C12": ("exploration", "runtime monitor: exact k-NN comparison inside the small-graph regime, non-emptiness after every op, BFS reachability invariant on the graph read through a verif accessor at quiescent points, adversarial removal targets chosen on the graph",
          "Held (apart from listed known findings) on 400/8000 exact-regime histories and 120/1500 graphs of up to 300/3000 vertices; each unreachable vertex is classified on the graph so that only the recorded shapes are suppressed.",
          "Reachability asserted only in states without pending soft deletes; the k=n, ef>=n corroboration is an observation, not a verdict (directed edges, upper-layer descent).", "DESIGN.md §4 C12"),
